@@ -370,7 +370,18 @@ func runProperty(eng *Engine, prop string, timeout time.Duration, dir string) *p
 
 func runCanary(eng *Engine, dir string) []string {
 	var bad []string
-	funcs, _ := propFuncs(eng, "CANARY")
+	funcs, lemmas := propFuncs(eng, "CANARY")
+	for _, l := range lemmas {
+		o, err := eng.lemmaObligation(l)
+		if err != nil {
+			bad = append(bad, "canary lemma "+l+": "+err.Error())
+			continue
+		}
+		res := solveAll(eng, []*Obligation{o}, 10*time.Second, dir, 1)
+		if res[0].res.Status != "sat" {
+			bad = append(bad, "canary lemma "+l+" did not come back sat ("+res[0].res.Status+")")
+		}
+	}
 	if len(funcs) == 0 {
 		return []string{"no canary contract found"}
 	}
